@@ -744,13 +744,17 @@ def check_C05(tier, seed, extra_programs=None):
             q = mk_query(p, doms, declare="random")
             qc.add(W, [q, copy.deepcopy(q)], _c05_events())
     # the further grammars: for_all, sub-queries, flatten, concatenate (each re-evaluated under both configurations)
-    for g, nvars, fix in (("G3", 2, None), ("G6", 2, None), ("G7i", 1, _no_repeats), ("G7o", 1, _no_repeats), ("G7c", 2, None)):
+    for g, nvars, fix in (("G3", 2, None), ("G6", 3, None), ("G7i", 1, _no_repeats), ("G7o", 1, _no_repeats), ("G7c", 2, None)):
         gp = run.export("GenQuery", f"{g}-bfs", "PROG", constants=dict(G=g, NV=2, LeafLimit=12 if quick else 40, MaxLeaves=2, MaxNot=1,
                                                                         NeedNot=False), invariants=("Export", "WellFormed"), count=False)
+        if g == "G6":
+            gp = [p for p in gp if _the_ok(p)]       # the same domain restrictions as C15
         for p in rng.sample(gp, min(len(gp), 250 if quick else 6000)):
             W, doms = _world_and_doms(rng, nvars, quick)
             if fix:
                 W = fix(copy.deepcopy(W))
+            if g == "G6":
+                doms = _the_doms(p, W, doms, rng)
             q = mk_query(p, doms)
             qc.add(W, [q, copy.deepcopy(q)], _c05_events())
     # rule trees and rules: evaluated under on, on, off, on
@@ -898,29 +902,31 @@ def check_C17(tier, seed):
     return rc
 
 
+def _the_ok(p):
+    # a correlated the(...) is only meaningful where the enclosing variable is bound before it is reached: alone with
+    # the enclosing variable's expression on the left, or as the right conjunct of conditions on that variable
+    c = p["cond"]
+    if '"quant": "the"' not in json.dumps(c):
+        return True
+
+    def the_leaf(n):
+        return n["k"] == "cmp" and '"quant": "the"' in json.dumps(n["r"]) and '"quant"' not in json.dumps(n["l"])
+    return the_leaf(c) or (c["k"] == "and" and the_leaf(c["r"]) and '"i": 2' not in json.dumps(c["l"])
+                           and '"quant"' not in json.dumps(c["l"]))
+
+def _the_doms(p, W, doms, rng):
+    # the(entity(y, y == x.ref)) has exactly one solution per x when y ranges over the whole heap
+    if '"quant": "the"' in json.dumps(p["cond"]):
+        allobjs = list(range(1, len(W["objs"]) + 1))
+        rng.shuffle(allobjs)
+        return [doms[0], allobjs] + doms[2:]
+    return doms
+
+
 def check_C15(tier, seed):
     def events(q):
         return [drain_ev(), drain_ev()]
 
-    def the_ok(p):
-        # a correlated the(...) is only meaningful where the enclosing variable is bound before it is reached: alone with
-        # the enclosing variable's expression on the left, or as the right conjunct of conditions on that variable
-        c = p["cond"]
-        if '"quant": "the"' not in json.dumps(c):
-            return True
-
-        def the_leaf(n):
-            return n["k"] == "cmp" and '"quant": "the"' in json.dumps(n["r"]) and '"quant"' not in json.dumps(n["l"])
-        return the_leaf(c) or (c["k"] == "and" and the_leaf(c["r"]) and '"i": 2' not in json.dumps(c["l"])
-                               and '"quant"' not in json.dumps(c["l"]))
-
-    def the_doms(p, W, doms, rng):
-        # the(entity(y, y == x.ref)) has exactly one solution per x when y ranges over the whole heap
-        if '"quant": "the"' in json.dumps(p["cond"]):
-            allobjs = list(range(1, len(W["objs"]) + 1))
-            rng.shuffle(allobjs)
-            return [doms[0], allobjs] + doms[2:]
-        return doms
     return _grammar_check(
         "C15", tier, seed, ["G6"],
         "sub-queries an(entity(x, c)), an(entity(y, c)), an(set_of([x, y], c)) used as conditions of an enclosing query "
@@ -928,8 +934,8 @@ def check_C15(tier, seed):
         "operands (an(entity(y, c)).n == x.m, an(entity(y, c)) == x.ref, contains(x.refs, an(...))); TLC gives each the "
         "meaning of its conditions inlined; correlated sub-queries (inner condition on a variable of the enclosing query) "
         "with an and with the (unique solution per outer binding); non-trivial = result neither empty nor everything", 3,
-        events=events, needs=lambda p: count_nodes(p["cond"], "subq") + count_nodes(p["cond"], "sub") > 0 and the_ok(p),
-        fix_doms=the_doms)
+        events=events, needs=lambda p: count_nodes(p["cond"], "subq") + count_nodes(p["cond"], "sub") > 0 and _the_ok(p),
+        fix_doms=_the_doms)
 
 
 CHECKS.update({"C10": check_C10, "C15": check_C15, "C16": check_C16, "C17": check_C17})
